@@ -240,7 +240,7 @@ def gen_history(hid, rng, prop, tier):
 def gen_capacity_histories(hid0, rng):
     """capacities below the minimum, around and beyond the 16-bit limit, all embeddings"""
     hs = []
-    caps = [0, 1, 3, 4, 65534, 65535, 65536, 65537, 70000, 131072 + 4, 2 ** 31 - 1]
+    caps = [-5, 0, 1, 3, 4, 65534, 65535, 65536, 65537, 70000, 131072 + 4, 2 ** 31 - 1, 2 ** 31, -2 ** 31 - 1, 2 ** 32 + 4, 2 ** 40]
     for j, cap in enumerate(caps):
         target = TARGETS[(j + rng.randrange(3)) % 3]
         kind = rng.choice(KINDS)
